@@ -108,7 +108,12 @@ fn sync_script(root: &vfs::VfsPath, path: &str, len: u64, script: &[ROp]) -> Res
                 let sf = seek_from(w, o, len, false, None);
                 out.push(h.seek(sf).map(|p| (p, vec![])).map_err(|e| format!("{:?}", e.kind())));
             }
-            ROp::Read(k, n) => {
+            ROp::ReadToEnd => {
+                let mut v = vec![];
+                let r = h.read_to_end(&mut v);
+                out.push(r.map(|n| (n as u64, v)).map_err(|e| format!("{:?}", e.kind())));
+            }
+            ROp::Read(k, n) | ROp::ReadExact(k, n) => {
                 let want = read_size(*k, *n, len as usize);
                 let mut buf = vec![0u8; want];
                 let mut got = 0;
@@ -370,6 +375,12 @@ pub fn replay(v: &Value) -> CaseResult {
     if v.get("kind").and_then(|k| k.as_str()) == Some("c15-futures-drop") {
         return futures_drop_repro();
     }
+    if v.get("kind").and_then(|k| k.as_str()) == Some("c15-walkrm") {
+        let case = walkrm_from_json(v).ok_or_else(|| Failure { message: "unparsable c15-walkrm replay".into(), replay: v.clone() })?;
+        let po = v.get("panics_only").and_then(|x| x.as_bool()).unwrap_or(false);
+        let mut st = Stats::default();
+        return with_stdout_silenced(|| test_walkrm(&case, &mut st, false, po));
+    }
     let base = HistCase::from_json(v.get("case").unwrap_or(&Value::Null)).ok_or_else(|| Failure { message: "unparsable C15 replay".into(), replay: v.clone() })?;
     let scripts = v.get("scripts").and_then(|s| s.as_array()).map(|a| a.iter().map(rops_from_json).collect()).unwrap_or_default();
     let case = Case { base, scripts, plan_seed: v.get("plan_seed").and_then(|x| x.as_u64()).unwrap_or(0) };
@@ -394,10 +405,16 @@ pub fn panic_part(ctx: &RunCtx) -> (Stats, Option<Failure>) {
         })
     });
     stats.label("async_part_ran");
+    let mut failure = failure;
+    if failure.is_none() {
+        let (s2, f2) = walkrm_part(ctx, ctx.tier.pick(1500, 30_000), true);
+        stats.merge(s2);
+        failure = f2;
+    }
     (stats, failure)
 }
 
-const RULE: &str = "typed C01/C09 histories vec(op,0..=28) on every stack available in both worlds (Mem, Phys, altroot, overlay incl. sub-path layers, nesting<=2, pre-populated layers) executed in lock-step on the sync stack, its async twin, and N further async twins whose leaf filesystems are wrapped in PendFS (every trait future and every read_dir stream item returns Pending 0..3 times per a generated plan; N=3 quick, 8 thorough); per call: same Ok/Err, same error class, equal values (walk results as multisets, async order must be parent-before-child); after every call identical full snapshots; read/seek scripts on async read handles compared call by call with the sync handles; tokio current-thread runtime; non-trivial = history with >=1 failing call and >=1 walk over >=2 nested directories, under a plan that returned Pending inside a read_dir future and inside a metadata future of that walk";
+const RULE: &str = "typed C01/C09 histories vec(op,0..=28) on every stack available in both worlds (Mem, Phys, altroot, overlay incl. sub-path layers, nesting<=2, pre-populated layers) executed in lock-step on the sync stack, its async twin, and N further async twins whose leaf filesystems are wrapped in PendFS (every trait future and every read_dir stream item returns Pending 0..3 times per a generated plan; N=3 quick, 8 thorough); per call: same Ok/Err, same error class, equal values (walk results as multisets, async order must be parent-before-child); after every call identical full snapshots; read/seek scripts on async read handles compared call by call with the sync handles; tokio current-thread runtime; PLUS walk_dir streams (sync, async, async under a Pending plan) over generated trees with a directory removed after k items were pulled: the stream must terminate, yield no entry twice, yield every entry outside the removed directory, name only vanished entries in its error items and report each of them at most once, like the sync iterator; non-trivial = history with >=1 failing call and >=1 walk over >=2 nested directories, under a plan that returned Pending inside a read_dir future and inside a metadata future of that walk";
 
 pub fn run(ctx: &RunCtx) -> i32 {
     let reg = crate::regress::run_for(&ctx.id, &replay);
@@ -408,7 +425,12 @@ pub fn run(ctx: &RunCtx) -> i32 {
     }
     let nplans = ctx.tier.pick(3, 8);
     let n = ctx.tier.pick(800, 24_000);
-    let (stats, failure) = with_stdout_silenced(|| run_sharded(ctx, "lockstep", n, || strategy(false), |c, st, counting| test(c, st, counting, nplans, false)));
+    let (mut stats, mut failure) = with_stdout_silenced(|| run_sharded(ctx, "lockstep", n, || strategy(false), |c, st, counting| test(c, st, counting, nplans, false)));
+    if failure.is_none() {
+        let (s2, f2) = walkrm_part(ctx, ctx.tier.pick(3000, 60_000), false);
+        stats.merge(s2);
+        failure = f2;
+    }
     write_evidence(
         ctx,
         "exploration",
@@ -419,4 +441,198 @@ pub fn run(ctx: &RunCtx) -> i32 {
         failure.is_some() as u32,
     );
     finish(ctx, &stats, &failure, &[("distinct_nontrivial", 30), ("pending_in_walk_read_dir_futures", 100), ("pending_in_walk_metadata_futures", 100), ("reader_scripts_compared", 50)])
+}
+
+// ---------------------------------------------------------------------------------------------
+// walk_dir streams with a directory removed while the stream is live (sync, async, async+Pending)
+// ---------------------------------------------------------------------------------------------
+
+#[derive(Clone, Debug)]
+pub struct WalkRmCase {
+    pub cfg: Cfg,
+    pub pool: Vec<String>,
+    pub tree: Vec<RawEntry>,
+    pub pulls: u8,
+    pub victim: u16,
+    pub plan_seed: u64,
+}
+
+fn walkrm_strategy() -> impl Strategy<Value = WalkRmCase> {
+    (cfg_strategy(2), pool_strategy(), prepop_strategy(16), 0u8..8, any::<u16>(), any::<u64>()).prop_map(|(cfg, pool, tree, pulls, victim, plan_seed)| {
+        let cfg = if cfg.contains_phys() && plan_seed % 5 != 0 { demote_phys(&cfg) } else { cfg };
+        WalkRmCase { cfg, pool, tree, pulls, victim, plan_seed }
+    })
+}
+
+/// judge one walk: items = (Ok(path) | Err(path)) in yield order
+fn judge_walk(items: &[Result<String, String>], model: &Tree, victim: &str, who: &str) -> Result<usize, String> {
+    let mut seen = std::collections::BTreeSet::new();
+    let mut errs = 0usize;
+    let inside = model.descendants(victim).len() + 1;
+    for it in items {
+        match it {
+            Ok(p) => {
+                if !seen.insert(p.clone()) {
+                    return Err(format!("{}: '{}' yielded twice", who, p));
+                }
+            }
+            Err(p) => {
+                errs += 1;
+                if !is_within(p, victim) && !is_within(victim, p) {
+                    return Err(format!("{}: error item names '{}', unrelated to the removed '{}'", who, p, victim));
+                }
+            }
+        }
+    }
+    if errs > inside {
+        return Err(format!("{}: {} error items although only {} entries vanished (the sync iterator reports each vanished entry at most once and carries on)", who, errs, inside));
+    }
+    for k in model.m.keys() {
+        if k.is_empty() || is_within(k, victim) {
+            continue;
+        }
+        if !seen.contains(k) {
+            return Err(format!("{}: '{}' still exists and is outside the removed directory but was never yielded", who, k));
+        }
+    }
+    Ok(errs)
+}
+
+fn test_walkrm(case: &WalkRmCase, st: &mut Stats, counting: bool, panics_only: bool) -> CaseResult {
+    let mut trace: Vec<String> = vec![];
+    let mut facts = (0usize, 0u64);
+    let runtime = rt();
+    let res: Result<(), String> = runtime.block_on(async {
+        let mut pool = case.pool.clone();
+        if case.cfg.contains_overlay() {
+            for n in pool.iter_mut() {
+                n.truncate(200);
+            }
+        }
+        let nl = case.cfg.overlay_layers().max(1);
+        let prepop = make_prepop(&case.tree, &pool, 3, nl);
+        let model = union_model(&prepop, nl);
+        let dirs: Vec<String> = model.dirs().into_iter().filter(|d| !d.is_empty()).collect();
+        if dirs.is_empty() {
+            return Ok(());
+        }
+        let victim = dirs[crate::util::idx(case.victim, dirs.len())].clone();
+        // sync reference behaviour, judged by the same rule
+        {
+            let s = build(&case.cfg, &prepop)?;
+            let r = crate::util::guarded(|| -> Result<Vec<Result<String, String>>, String> {
+                let mut it = s.root.walk_dir().map_err(|e| e.to_string())?;
+                let mut items = vec![];
+                for _ in 0..case.pulls {
+                    match it.next() {
+                        Some(Ok(p)) => items.push(Ok(p.as_str().to_string())),
+                        Some(Err(e)) => items.push(Err(e.path().clone())),
+                        None => break,
+                    }
+                }
+                at(&s.root, &victim).map_err(|e| e.to_string())?.remove_dir_all().map_err(|e| format!("remove_dir_all: {}", e))?;
+                let mut guard = 0;
+                for x in it {
+                    guard += 1;
+                    if guard > 5000 {
+                        return Err("sync walk does not terminate".into());
+                    }
+                    items.push(match x {
+                        Ok(p) => Ok(p.as_str().to_string()),
+                        Err(e) => Err(e.path().clone()),
+                    });
+                }
+                Ok(items)
+            });
+            match r {
+                Err(p) => return Err(format!("sync walk PANIC: {}", p)),
+                Ok(Err(m)) => return Err(m),
+                Ok(Ok(items)) => {
+                    if !panics_only {
+                        judge_walk(&items, &model, &victim, "sync walk_dir")?;
+                    }
+                }
+            }
+        }
+        for (label, plan) in [("async", None), ("async under a Pending plan", Some(PendPlan::new(case.plan_seed)))] {
+            let a = abuild(&case.cfg, &prepop, plan.clone()).await?;
+            let fut = async {
+                use futures::StreamExt;
+                let mut it = a.root.walk_dir().await.map_err(|e| e.to_string())?;
+                let mut items: Vec<Result<String, String>> = vec![];
+                for _ in 0..case.pulls {
+                    match it.next().await {
+                        Some(Ok(p)) => items.push(Ok(p.as_str().to_string())),
+                        Some(Err(e)) => items.push(Err(e.path().clone())),
+                        None => break,
+                    }
+                }
+                aat(&a.root, &victim).map_err(|e| e.to_string())?.remove_dir_all().await.map_err(|e| format!("async remove_dir_all: {}", e))?;
+                let mut guard = 0;
+                while let Some(x) = it.next().await {
+                    guard += 1;
+                    if guard > 5000 {
+                        return Err(format!("{} walk does not terminate (the same entry is reported over and over)", label));
+                    }
+                    items.push(match x {
+                        Ok(p) => Ok(p.as_str().to_string()),
+                        Err(e) => Err(e.path().clone()),
+                    });
+                }
+                Ok::<_, String>(items)
+            };
+            match AssertUnwindSafe(fut).catch_unwind().await {
+                Err(_) => return Err(format!("{} walk_dir PANIC after '{}' was removed while the stream was live", label, victim)),
+                Ok(Err(m)) => {
+                    if !panics_only || m.contains("terminate") {
+                        return Err(m);
+                    }
+                }
+                Ok(Ok(items)) => {
+                    let errs = if panics_only { 0 } else { judge_walk(&items, &model, &victim, &format!("{} walk_dir", label))? };
+                    facts.0 += errs;
+                    trace.push(format!("{}: {} items, {} error items after removing '{}' at pull {}", label, items.len(), errs, victim, case.pulls));
+                }
+            }
+            if let Some(p) = plan {
+                facts.1 += p.pends_total.load(Ordering::Relaxed);
+            }
+        }
+        Ok(())
+    });
+    drop(runtime);
+    match res {
+        Err(m) => Err(Failure {
+            message: format!("stack {}: {}\n    {}", case.cfg.render(), m, trace.join("\n    ")),
+            replay: json!({"kind": "c15-walkrm", "cfg": case.cfg.to_json(), "pool": case.pool, "tree": case.tree.iter().map(crate::hist::entry_to_json).collect::<Vec<_>>(), "pulls": case.pulls, "victim": case.victim, "plan_seed": case.plan_seed, "panics_only": panics_only}),
+        }),
+        Ok(()) => {
+            if counting {
+                st.label("walk_with_removal_cases");
+                st.label_n("walk_with_removal_error_items", facts.0 as u64);
+                st.label_n("pending_returns_injected", facts.1);
+                if facts.0 > 0 && facts.1 > 0 {
+                    st.nontrivial.insert(crate::util::fnv_str(&format!("{:?}", case)));
+                    st.label("walk_with_removal_cases_with_errors_under_pending");
+                }
+                st.sample(json!({"part": "walk_dir with a directory removed while the stream is live", "stack": case.cfg.render(), "trace": trace}), facts.0 > 0);
+            }
+            Ok(())
+        }
+    }
+}
+
+pub fn walkrm_part(ctx: &RunCtx, n: u32, panics_only: bool) -> (Stats, Option<Failure>) {
+    with_stdout_silenced(|| run_sharded(ctx, "walkrm", n, walkrm_strategy, |c, st, counting| test_walkrm(c, st, counting, panics_only)))
+}
+
+fn walkrm_from_json(v: &Value) -> Option<WalkRmCase> {
+    Some(WalkRmCase {
+        cfg: Cfg::from_json(v.get("cfg")?)?,
+        pool: v.get("pool")?.as_array()?.iter().filter_map(|x| x.as_str().map(|s| s.to_string())).collect(),
+        tree: v.get("tree")?.as_array()?.iter().filter_map(crate::hist::entry_from_json).collect(),
+        pulls: v.get("pulls")?.as_u64()? as u8,
+        victim: v.get("victim")?.as_u64()? as u16,
+        plan_seed: v.get("plan_seed")?.as_u64()?,
+    })
 }
